@@ -54,7 +54,7 @@ __CPROVER_ensures(tm.exit_at_unlock == tm.exit_at_lock && tm.len_at_unlock == tm
 #ifdef CV_HAS_tp_worker
 /* what holds whenever the worker owns the lock at a loop head */
 #define WORKER_INV(pool, lkp) (cv_exc_pending == 0 && tm.pool_dead == 0 && (lkp)->_M_owns == 1 && (void *)(lkp)->_M_device == (void *)&(pool)->_mx && \
-   gh_lock_depth == 1 && gh_lock_held == (void *)&gh_pool->_mx && TP_INV(gh_pool) && tm.exit_at_lock == gh_pool->_exit && CUR == gh_pool && tm.front_valid == 0 && tm.lq_live == 0 && tm.lq_len == 0 && \
+   gh_lock_depth == 1 && gh_lock_held == (void *)&gh_pool->_mx && TP_INV(gh_pool) && tm.exit_at_lock == TP_EXIT(gh_pool) && CUR == gh_pool && tm.front_valid == 0 && tm.lq_live == 0 && tm.lq_len == 0 && \
    tm.rely_on == 1 && tm.job_may_stop == 1 && tt.n_join == 0 && tt.n_detach == 0 && \
    tm.n_push == 0 && tm.n_unrun == 0 && tm.n_invoked == tm.n_deq && tm.n_ran == tm.n_deq && \
    tm.c_unrun == 0 && tm.c_invoked <= 1 && tm.c_ran == tm.c_invoked && (tm.c_where == C_GONE) == (tm.c_invoked == 1) && \
@@ -145,7 +145,7 @@ int gh_stop_calls;
 #ifdef CV_HAS_tp_stop_abs
 void tp_stop_abs(TP *p) { gh_stop_calls++; __CPROVER_assert(!(gh_lock_depth > 0), "stop() called while holding the pool mutex");
   if (tm.rely_on) tp_rely(p);                                                        /* stop() takes the mutex: the others have acted (contract of stop(): exit_at_lock / env_unjoined clauses) */
-  p->_exit = 1; tm.q_len = 0; TV(&p->_threads)->e = TV(&p->_threads)->b; }          /* the workers it found are joined; those another stop() took are not its business */
+  TP_EXIT(p) = 1; tm.q_len = 0; TV(&p->_threads)->e = TV(&p->_threads)->b; }          /* the workers it found are joined; those another stop() took are not its business */
 #endif
 void tp_dtor(TP *this_)
 __CPROVER_requires(TP_PRE(this_) && gh_stop_calls == 0 && (tm.c_where == C_ELSEWHERE || tm.c_where == C_QUEUED) && TV(&this_->_threads)->b == gh_tv)
@@ -191,7 +191,7 @@ __CPROVER_ensures(cv_exc_pending == 0 && (CUR == 0 ? (NO_CS && __CPROVER_return_
 cv_i1 cur_await_ready(void)
 __CPROVER_requires(CUR_PRE)
 __CPROVER_assigns(TP_ASSIGNS)
-__CPROVER_ensures(cv_exc_pending == 0 && gh_lock_depth == 0 && __CPROVER_return_value == ((CUR == 0 || gh_pool->_exit == 1) ? 1 : 0))
+__CPROVER_ensures(cv_exc_pending == 0 && gh_lock_depth == 0 && __CPROVER_return_value == ((CUR == 0 || TP_EXIT(gh_pool) == 1) ? 1 : 0))
 #ifdef C11_LOCKCHECK_AWAIT_READY
 __CPROVER_ensures(CUR != 0 ==> (ONE_CS && __CPROVER_return_value == tm.exit_at_lock))        /* thread_pool::_exit is read inside a critical section of the pool mutex */
 #endif
@@ -263,7 +263,7 @@ cv_i32 thr_hw(void) { return gh_hw; }
 void tp_ctor(TP *this_, cv_i32 threads)
 __CPROVER_requires(cv_exc_pending == 0 && this_ == gh_pool && tc.n_started == 0 && tc.wrong_this == 0 && gh_me != 0 && CTOR_N(threads) < tv_cap && tv_cap <= (1ul << 20) + 1 && gh_TK < (1ul << 40))
 __CPROVER_assigns(__CPROVER_object_whole(gh_pool), __CPROVER_object_whole(gh_tv), __CPROVER_object_whole(&tc), TP_MODEL_ASSIGNS)
-__CPROVER_ensures(cv_exc_pending == 0 && this_->_exit == 0 && tm.q_len == 0)                                   /* running, nothing queued */
+__CPROVER_ensures(cv_exc_pending == 0 && TP_EXIT(this_) == 0 && tm.q_len == 0)                                   /* running, nothing queued */
 __CPROVER_ensures(tc.n_started == CTOR_N(threads) && tc.wrong_this == 0)                                         /* exactly that many threads started, each bound to this pool */
 __CPROVER_ensures(CTOR_N(threads) == 0 ? TV(&this_->_threads)->e == TV(&this_->_threads)->b : (TV(&this_->_threads)->b == gh_tv && TV(&this_->_threads)->e == gh_tv + CTOR_N(threads)))   /* all of them in the worker list ... */
 __CPROVER_ensures(gh_TK < CTOR_N(threads) ==> gh_tv[gh_TK]._M_id._M_thread != 0)                                 /* ... as joinable threads */
